@@ -2,6 +2,7 @@ package monitors
 
 import (
 	"fmt"
+	"math/big"
 	"strings"
 
 	"github.com/MinterTeam/minter-go-node/coreV2/types"
@@ -60,6 +61,12 @@ func (FailedTxOnlyFee) Check(t *explore.Transition) ([]V, bool) {
 	}
 	// rejected
 	diff := twinDiff(t)
+	// on a payout block the fee is paid out to delegators' stakes within the same block: the
+	// twin difference is then spread over stakes and is not judged (the nonce rule still is)
+	if sp := int64(t.W.P.StakePeriod); sp > 0 && t.Cur.Last().Height%sp == 0 {
+		diff = nil
+	}
+	rewardSum := new(big.Int)
 	par := t.Parent.Final()
 	gas := uint64(inf.GasCoin)
 	payerBal := fmt.Sprintf("acct/%s/bal/%d", inf.Payer.String(), gas)
@@ -83,7 +90,10 @@ func (FailedTxOnlyFee) Check(t *explore.Transition) ([]V, bool) {
 				bad = "payer balance rose or went negative"
 			}
 		case strings.HasPrefix(k, "val/") && strings.HasSuffix(k, "/accum_reward"), k == "total_slashed":
-			if d.Delta().Sign() < 0 {
+			// the fee joins the block's reward pool: every validator's floor share can only grow, the
+			// rounding remainder (total slashed) may move either way; together they must not shrink
+			rewardSum.Add(rewardSum, d.Delta())
+			if d.Delta().Sign() < 0 && k != "total_slashed" {
 				bad = "reward pool share decreased"
 			}
 		case gas != 0 && (k == fmt.Sprintf("coin/%d/volume", gas) || k == fmt.Sprintf("coin/%d/reserve", gas)):
@@ -114,6 +124,9 @@ func (FailedTxOnlyFee) Check(t *explore.Transition) ([]V, bool) {
 				Detail: fmt.Sprintf("tx %q rejected with code %d (%s) but %s [%s]", r.T.Name, r.Resp.Code, r.Resp.Log, d, bad)})
 			break
 		}
+	}
+	if len(out) == 0 && rewardSum.Sign() < 0 {
+		out = append(out, V{Signature: fmt.Sprintf("rejected|%s|code%d|reward-pool-shrank", ty, r.Resp.Code), Detail: fmt.Sprintf("tx %q rejected (code %d): validators' accrued rewards plus the remainder changed by %s", r.T.Name, r.Resp.Code, rewardSum)})
 	}
 	if r.NonceAfter != r.NonceBefore {
 		out = append(out, V{Signature: fmt.Sprintf("rejected-nonce|%s|code%d", ty, r.Resp.Code), Detail: fmt.Sprintf("tx %q rejected (code %d) but sender nonce %d -> %d", r.T.Name, r.Resp.Code, r.NonceBefore, r.NonceAfter)})
